@@ -89,6 +89,38 @@ struct Use {
 		TInstance copy{m}; (void) copy;
 	}
 };
+// the same through a head-less root (M::PeerRoot): the root region is then an S_<.., EmptyT> with its own code paths
+template <typename TConfig, int TAG>
+struct UseP {
+	using M = ffsm2::MachineT<TConfig>;
+	struct A; struct B;
+	using FSM = typename M::template PeerRoot<A, B>;
+	struct A : FSM::State {
+		void update(typename FSM::FullControl& c) {
+			c.template changeTo<B>();
+#if HAS_PLANS
+			c.succeed(); c.fail(); c.plan().template change<A, B>();
+#endif
+		}
+		void react(const Ev&, typename FSM::FullControl&) {}
+		void query(Ev&, typename FSM::ConstControl&) const {}
+	};
+	struct B : FSM::State { void entryGuard(typename FSM::GuardControl& c) { c.cancelPendingTransition(); } };
+	static void run() {
+		Ctx c{1}; typename FSM::Instance m{c}; Ev e{2};
+		m.update(); m.react(e); m.query(e); m.immediateChangeTo(1);
+#if HAS_SERIAL
+		typename FSM::Instance::SerialBuffer b; m.save(b); m.load(b);
+#endif
+#if HAS_HISTORY
+		(void) m.previousTransition(); m.replayTransition(0);
+#endif
+#if HAS_LOG
+		m.attachLogger(nullptr);
+#endif
+		typename FSM::Instance copy{m}; (void) copy;
+	}
+};
 template <typename TConfig, int TAG> static void autoUse() { using U = Use<TConfig, TAG>; Ctx c{1}; typename U::FSM::Instance m{c}; U::common(m); }
 template <typename TConfig, int TAG> static void manualUse() {
 	using U = Use<TConfig, TAG>; Ctx c{1}; typename U::FSM::Instance m{c}; m.enter(); U::common(m);
@@ -103,6 +135,8 @@ int main() {
 	manualUse<C0::ManualActivation, 1>();
 	autoUse<C0::PayloadT<Pay>, 2>();
 	manualUse<C0::ManualActivation::PayloadT<Pay>, 3>();
+	UseP<C0, 4>::run();
+	UseP<C0::PayloadT<Pay>, 5>::run();
 	return 0;
 }
 '''
